@@ -227,6 +227,8 @@ class Builder:
                 if k in self.leaf_cache:
                     return self.leaf_cache[k]
             a = leaf_array(t)
+            if self.leaf_shift and t["dt"] == 0:
+                a = a + self.leaf_shift          # homogeneity replay (C08): every real leaf + c
             if self.watch is not None:
                 self.watch.add_array(a)
             ins = OrderedDict((n, Bint[s]) for n, s in t["ins"])
@@ -315,6 +317,7 @@ class Builder:
 
     rename_as_str = False
     real_num_as_tensor = False
+    leaf_shift = 0.0
     delta_point_as_tensor = False  # a Number point raises NotImplementedError in Delta.eager_subs (astype of a python bool)
     index_style = "plain"         # how a basic index is spelled: plain | ellipsis
 
